@@ -192,7 +192,27 @@ def check_C02(tier, seed, replay=None):
     # the same label name in nested scopes (shadowing), labels directly over action groups
     cfg2 = F.RandCfg(depth=4, maxrules=2, leaves=F.LEAVES_FULL, preds=True, labpool=["k", "v", "w"])
     groups += F.random_groups(seed + 11, nrand // 2, cfg2, gi0=len(groups) + 1)
+    # "however much backtracking or memoised skipping preceded": alternatives with a common prefix rule, so that with Memoize
+    # the second alternative resumes after a cache hit; what follows the hit is a newline, a multi-byte rune, or the end
+    from peg import Gram
+    rngp = random.Random(seed + 17)
+    for _ in range(80 if tier == "quick" else 400):
+        g = Gram(len(groups) + 1)
+        key = g.action(g.un("plus", g.cls((F.A, F.EACUTE), (), False, False))) if rngp.random() < 0.7 else g.seq([g.lit([F.A]), g.un("opt", g.lit([F.NL]))])
+        alts = []
+        for _a in range(rngp.randint(2, 3)):
+            suf = rngp.choice([g.lit([F.NL]), g.lit([F.A]), g.cls((F.EACUTE, F.NL), (), False, False), g.lit([F.NL, F.A]), g.any(), g.lit([F.EURO]), g.un("not", g.any())])
+            tail = g.action(g.un("star", g.action(g.any())))
+            alts.append(g.action(g.seq([g.label(g.ref(2)), suf, g.pred(False, "true"), g.label(tail)])))
+        g.rules = [g.choice(alts), key]
+        g.disp = ["", ""]
+        g.compute_args()
+        g.maydiverge = g.may_diverge()
+        groups.append(g)
     inputs = F.all_inputs(alpha, maxlen)
+    rngi = random.Random(seed + 18)
+    for _ in range(40 if tier == "quick" else 200):         # a few longer lines: key, newline, key, ...
+        inputs.append([b for _k in range(rngi.randint(3, 5)) for b in rngi.choice([R["a"], R["a"], R["nl"], R["eacute"], R["euro"]])])
     options = [opt(), opt(memo=True), opt(maxexpr=3000), opt(maxexpr=3000, memo=True), opt(debug=True)]
     nin = len(inputs)
     run.add_witnesses([f["id"] for f in findings.active("C02")], groups, inputs, options)
@@ -553,6 +573,19 @@ def check_C14(tier, seed, replay=None):
                 if wrap is None and after == "rest":
                     continue
                 probe(lambda g: fall(g, k, wrap, after))
+    # recursion that re-enters a recovery operator while another operator listing the same label sits between the two
+    # activations: the innermost activation's own handler must run (the handlers are told apart by their values)
+    def reenter(g, labs2, throw_lab, wrap2):
+        h1, h2 = g.action(g.lit([])), g.action(g.un("star", g.lit([X])))
+        body = g.choice([g.action(g.seq([g.lit([X]), g.label(g.ref(2)), g.lit([F.B])])), g.action(g.lit([F.A])), g.throw(throw_lab)])
+        inner = g.recover(g.ref(1), h2, labs2)
+        if wrap2:
+            inner = g.seq([inner, g.un("opt", g.lit([F.A]))])
+        g.rules = [g.recover(body, h1, ["la"]), inner]
+    for labs2 in (["la"], ["lb", "la"], ["lb"]):
+        for th in ("la", "lb"):
+            for wrap2 in (False, True):
+                probe(lambda g: reenter(g, labs2, th, wrap2))
     cfg = F.RandCfg(depth=depth, maxrules=3, throw=True, preds=True, blocks=True, errs=0.1)
     groups += F.random_groups(seed, n, cfg, gi0=len(groups) + 1)
     cfg2 = F.RandCfg(depth=depth, maxrules=3, throw=True, state=True, cloner=True, blocks=True)
